@@ -124,7 +124,7 @@ def gl2(prog, getfn):
         errs.append("a slot is updated in place (%s := …): key, value and hash are no longer written together, so a "
                     "stored key can be paired with another key's value" % show(partial[0][1])[:70])
     if len(stores) != 1:
-        errs.append("expected exactly one whole-slot write, found %d" % len(stores))
+        errs.append("%sexpected exactly one whole-slot write, found %d" % ("?" if not stores and not partial else "", len(stores)))
     else:
         bb, pt, val, line = stores[0]
         v = strip(val)
@@ -147,7 +147,29 @@ def gl2(prog, getfn):
     calls = [cs for g in bodies for cs in g.terms.calls
              if cs.callee.name == "insert" and cs.callee.key().startswith("util::lru::Lru")]
     errs = []
-    if len(calls) != 1:
+    if not calls:
+        # no re-insertion through `insert`: entries are moved by hand.  A slot value copied into *another* slot of the
+        # same table must leave its old slot (take / store None); otherwise the key lives in two slots, and a later
+        # overwrite updates only one of them (the stale copy wins at the next growth).
+        for g in bodies:
+            gt = g.terms
+            for (bb, pt, val, line) in gt.stores:
+                pt_, v_ = strip(pt), strip(val)
+                if not (mir.is_call(pt_, "index_mut") and show(pt_[2][0]).endswith(".tbl")):
+                    continue
+                src = v_[2][0] if mir.is_call(v_, "clone") else v_
+                src = strip(src)
+                if mir.is_call(src, "index") and show(src[2][0]) == show(pt_[2][0]) and strip(src[2][1]) != strip(pt_[2][1]):
+                    cleared = any(mir.is_call(strip(p2), "index_mut") and strip(strip(p2)[2][1]) == strip(src[2][1]) and
+                                  strip(v2)[0] == "agg" and strip(v2)[3] == "None" for (_, p2, v2, _) in gt.stores) or \
+                        any(c.callee.name in ("take", "replace", "swap") for c in gt.calls)
+                    if not cleared:
+                        errs.append("grow copies the entry of slot %s into slot %s and leaves the original in place: the key is "
+                                    "then stored twice, and the stale copy can overwrite a newer value at the next growth"
+                                    % (show(src[2][1])[:40], show(pt_[2][1])[:50]))
+    if errs:
+        pass
+    elif len(calls) != 1:
         errs.append("%sexpected one re-insert call in grow, found %d" % ("?" if not calls else "", len(calls)))
     else:
         a = [strip(x) for x in calls[0].args[1:]]
@@ -316,7 +338,7 @@ def gl5(prog):
     fed = []
     fin = [cs for cs in te.calls if cs.callee.name == "finish"]
     if len(fin) != 1:
-        errs.append("expected one finish() call")
+        errs.append("?expected one finish() call")
     for cs in te.calls:
         if cs.callee.name == "hash" and cs.callee.trait == "std::hash::Hash":
             a = cs.args[0]
